@@ -2,7 +2,30 @@
 import common
 
 
+def py_witnesses(prop):
+    """corpus/py/<prop>-*.py: stand-alone programs on the public API that replay a repaired defect whose
+    trigger lies outside the op vocabulary of the engines; exit 0 = the property holds on this tree"""
+    import glob, os, subprocess
+    bad = 0
+    rep = common.Reporter(prop)
+    for path in sorted(glob.glob(os.path.join(common.CORPUS, 'py', prop.lower() + '-*.py'))):
+        r = subprocess.run([common.VENV_PY, path], env=common.impl_env(), capture_output=True, text=True, cwd='/tmp', timeout=300)
+        if r.returncode != 0:
+            bad += 1
+            rep.violation('witness-' + os.path.basename(path)[:-3],
+                          {'kind': 'property-violation-on-implementation', 'witness': path, 'exit': r.returncode,
+                           'output': (r.stdout + r.stderr)[-1500:], 'replay': common.VENV_PY + ' ' + path})
+    return bad
+
+
 def run(prop, tier, seed, replay):
+    rc = _run(prop, tier, seed, replay)
+    if replay is None and py_witnesses(prop):
+        rc = rc or 1
+    return rc
+
+
+def _run(prop, tier, seed, replay):
     if prop in ('C01', 'C02', 'C10', 'C14', 'C19'):
         common.ensure_impl_python()
         import ir_check, ir_props
